@@ -121,7 +121,7 @@ def c_render(fmt, v):
 
 def gen_instance_case(rng):
     uns = sorted(rng.sample([1, 2, 3, 5, 22, 100], rng.randint(1, 3)))
-    text, info = gen_inputs.multi_sim_input(rng, user_numbers=uns)
+    text, info = gen_inputs.multi_sim_input(rng, user_numbers=uns, rich=rng.random() < 0.4)
     extra_un = rng.choice([7, 8, 0])
     sel = {}
     for n in uns + [extra_un]:
@@ -167,6 +167,8 @@ def script_for(case):
     for n in case["uns"]:
         ops.append(["c", "SetCurrentSelectedOutputUserNumber", 0, n])
         ops.append(["probe", 0, 30])
+    ops.append(["c", "SetCurrentSelectedOutputUserNumber", 0, case["uns"][0]])
+    ops.append(["probe", 0, 3])           # tiny caller buffers: truncation / padding / length report
     ops.append(["c", "SetCurrentSelectedOutputUserNumber", 0, 9999])   # unknown user number
     ops.append(["probe", 0, 30])
     return ops, irun
@@ -350,8 +352,9 @@ def check_instance_case(ctx, case, ops, res, rc, err, files, mexe, problems):
     # 5. accessors: C, C++, Fortran binding agree cell by cell with the model table; out-of-range and unknown user number
     probes = [(o, r) for o, r in zip(ops, res) if o[0] == "probe"]
     setn = [o[3] for o in ops if o[0] == "c" and o[1] == "SetCurrentSelectedOutputUserNumber"]
-    probe_uns = case["uns"] + [9999]
+    probe_uns = case["uns"] + [case["uns"][0], 9999]
     for (o, pr), n in zip(probes, probe_uns):
+        cap = int(o[2])
         known = n in model["table"] and str(n) in obs["sel"] and n != 9999
         R, C, cells = model["table"].get(n, (0, 0, []))
         if pr["R"] != R or pr["C"] != C:
@@ -384,7 +387,6 @@ def check_instance_case(ctx, case, ops, res, rc, err, files, mexe, problems):
                 w = cl[tag]
                 if w["rc"] != cl["crc"]:
                     bad("accessor:" + tag, "%s result code %d != C result %d at (%d,%d)" % (tag, w["rc"], cl["crc"], r, c)); break
-                cap = 30
                 if gv[0] == "l":
                     expt, expd, exps = 3, float(cl["cv"]["l"]), "%d" % cl["cv"]["l"]
                 elif gv[0] == "d":
